@@ -11,13 +11,16 @@ use std::sync::atomic::{AtomicU64, Ordering};
 use std::sync::Arc;
 use std::time::Duration;
 
+/// value, and in a quarter of the rounds a sender whose receiving end the driver keeps
+type RM = (u64, Option<IpcSender<u64>>);
+
 pub fn run(ctx: &Ctx) {
     let rep = &ctx.rep;
     let rounds = ctx.opt_u64("rounds", if ctx.thorough { 400_000 } else { 60_000 });
     let mode = ctx.batch % 4; // 0 try_recv, 1 receiver set, 2 try_recv_timeout(0/1ms), 3 blocking recv
     let names = ["try_recv", "receiver-set", "try_recv_timeout", "recv"];
     // persistent sender worker: gets a sender and a value, spins a seeded moment, sends, drops
-    let (wtx, wrx) = crossbeam_channel::unbounded::<(IpcSender<u64>, u64, u32)>();
+    let (wtx, wrx) = crossbeam_channel::unbounded::<(IpcSender<RM>, u64, u32, Option<IpcSender<u64>>)>();
     let sent = Arc::new(AtomicU64::new(0));
     let s2 = sent.clone();
     let nworkers = if mode == 1 { 3 } else { 1 };
@@ -26,18 +29,18 @@ pub fn run(ctx: &Ctx) {
     let wrx = wrx.clone();
     let s2 = s2.clone();
     workers.push(std::thread::spawn(move || {
-        while let Ok((tx, v, spin)) = wrx.recv() {
+        while let Ok((tx, v, spin, att)) = wrx.recv() {
             for _ in 0..spin {
                 std::hint::spin_loop();
             }
-            let mut ok = tx.send(v).is_ok();
+            let mut ok = tx.send((v, att)).is_ok();
             if v & 1 == 1 {
                 // a second message right behind the first: its arrival (and the drop) then race
                 // with the drain loop that the first message started in the receiver
                 for _ in 0..(spin % 97) * 8 {
                     std::hint::spin_loop();
                 }
-                ok = ok && tx.send(v + 2).is_ok();
+                ok = ok && tx.send((v + 2, None)).is_ok();
             }
             drop(tx);
             if ok {
@@ -56,11 +59,18 @@ pub fn run(ctx: &Ctx) {
         if !ctx.want(case) && ctx.only_case.is_some() {
             continue;
         }
-        let (tx, rx): (IpcSender<u64>, IpcReceiver<u64>) = must("channel", ipc::channel());
+        let (tx, rx): (IpcSender<RM>, IpcReceiver<RM>) = must("channel", ipc::channel());
         let v = case ^ 0x5eed;
         let spin = r.below(400) as u32;
-        wtx.send((tx, v, spin)).expect("worker");
+        // the last message may carry a descriptor: it must arrive with it
+        let att = if mode != 1 && r.chance(250) { Some(must("channel", ipc::channel::<u64>())) } else { None };
+        let (att_tx, att_rx) = match att {
+            Some((a, b)) => (Some(a), Some(b)),
+            None => (None, None),
+        };
+        wtx.send((tx, v, spin, att_tx)).expect("worker");
         let mut got: Vec<u64> = Vec::new();
+        let mut got_att: Vec<IpcSender<u64>> = Vec::new();
         let mut how_ended = "disconnected";
         match mode {
             1 => {
@@ -69,10 +79,10 @@ pub fn run(ctx: &Ctx) {
                 let mut ids: std::collections::BTreeMap<u64, (u64, Vec<u64>, bool)> = std::collections::BTreeMap::new();
                 ids.insert(set.add(rx).expect("add"), (v, Vec::new(), false));
                 for k in 1..8u64 {
-                    let (tx2, rx2): (IpcSender<u64>, IpcReceiver<u64>) = must("channel", ipc::channel());
+                    let (tx2, rx2): (IpcSender<RM>, IpcReceiver<RM>) = must("channel", ipc::channel());
                     let v2 = (case ^ 0x5eed).wrapping_add(k << 40) | (k & 1);
                     ids.insert(set.add(rx2).expect("add"), (v2, Vec::new(), false));
-                    wtx.send((tx2, v2, r.below(400) as u32)).expect("worker");
+                    wtx.send((tx2, v2, r.below(400) as u32, None)).expect("worker");
                 }
                 let mut open = ids.len();
                 while open > 0 {
@@ -82,7 +92,7 @@ pub fn run(ctx: &Ctx) {
                                 match ev {
                                     IpcSelectionResult::MessageReceived(i2, m) => {
                                         if let Some(e) = ids.get_mut(&i2) {
-                                            e.1.push(m.to::<u64>().unwrap_or(u64::MAX));
+                                            e.1.push(m.to::<RM>().map(|x| x.0).unwrap_or(u64::MAX));
                                         }
                                     },
                                     IpcSelectionResult::ChannelClosed(i2) => {
@@ -117,7 +127,10 @@ pub fn run(ctx: &Ctx) {
             },
             3 => loop {
                 match rx.recv() {
-                    Ok(m) => got.push(m),
+                    Ok((m, a)) => {
+                        got.push(m);
+                        got_att.extend(a);
+                    },
                     Err(IpcError::Disconnected) => break,
                     Err(_) => {
                         how_ended = "error";
@@ -129,7 +142,10 @@ pub fn run(ctx: &Ctx) {
                 polls += 1;
                 let x = if mode == 0 { rx.try_recv() } else { rx.try_recv_timeout(Duration::from_millis(i % 2)) };
                 match x {
-                    Ok(m) => got.push(m),
+                    Ok((m, a)) => {
+                        got.push(m);
+                        got_att.extend(a);
+                    },
                     Err(TryRecvError::Empty) => continue,
                     Err(TryRecvError::IpcError(IpcError::Disconnected)) => break,
                     Err(_) => {
@@ -141,7 +157,15 @@ pub fn run(ctx: &Ctx) {
         }
         // the send had returned before the drop began, so the message must precede the disconnection
         let want = if v & 1 == 1 { vec![v, v + 2] } else { vec![v] };
-        if got != want {
+        let mut att_ok = true;
+        if let Some(arx) = &att_rx {
+            rep.stat("race_rounds_with_attachment", 1);
+            att_ok = got_att.len() == 1 && got_att[0].send(v).is_ok() && matches!(arx.try_recv(), Ok(x) if x == v);
+            if got == want && !att_ok {
+                how_ended = "attachment-missing-or-foreign";
+            }
+        }
+        if got != want || !att_ok {
             lost += 1;
             if first_loss.is_none() {
                 first_loss = Some(json!({"round": i, "observer": names[mode as usize], "got": got, "sent": v, "ended_by": how_ended, "spin": spin}));
